@@ -385,9 +385,9 @@ inductive RExp where
   | mul (a b : RExp)
   deriving DecidableEq, Repr
 
-/-- `Converter._emit_const` / the TENSOR-attribute path: `ir.tensor(pyvalue)` wraps a numpy array (or a
-TensorProto) WITHOUT copying (`copy = false`, the code as it is); `copy = true` snapshots the payload when
-the constant is created (the proposed fix).  Lists and Python numbers are always converted (copied). -/
+/-- `Converter._emit_const` / the TENSOR-attribute path: `copy = true` (the code as it is since b4400e5):
+the payload of a numpy array / TensorProto is snapshotted when the constant is created; `copy = false`
+(the code before): `ir.tensor(pyvalue)` wrapped the user's object WITHOUT copying.  Lists and Python numbers are always converted (copied). -/
 def translateR (copy : Bool) (g : RGlobals) (cells : Cells) : SExp → RExp
   | .x => .x
   | .glob n => match g.lookup n with
